@@ -1,7 +1,12 @@
 from algo_prop import make
 LEAN_EXTRA = ["PyXABProofs.Lemmas.OT_Bridge", "PyXABProofs.Props.DOOOptimism", "PyXABProofs.Generated.OrderTieC08", "PyXABProofs.Generated.FormulasC08"]
 ALGOS = ['SOO', 'StoSOO', 'DOO']
-budget, explore, search, replay = make("C08", ALGOS, quick_per_algo=14, thorough_per_algo=150, salt=800)
+# StoSOO with depth caps the tree actually reaches and small evaluation caps (directed, on every run; consecutive cases
+# differ in n, k and delta)
+STO_CAPS = [("StoSOO", {"params": {"n": n_, "h_max": hm_, "k": k_, **({"delta": dl_} if dl_ else {})}, "kind": kd_, "K": 3, "d": 1, "T": t_})
+            for n_, hm_, k_, dl_, kd_, t_ in [(60, 2, 1, None, "binary", 30), (200, 3, 2, 0.1, "binary", 60), (40, 1, 1, None, "kary", 20),
+                                             (120, 4, 3, 0.01, "randBinary", 100), (80, 2, 2, 0.5, "binary", 40)]]
+budget, explore, search, replay = make("C08", ALGOS, quick_per_algo=14, thorough_per_algo=150, salt=800, long_runs=STO_CAPS)
 RULE = ("the documented pull/receive loop on the real classes: algorithm x partition class (K 2..5) x dimension 1..3 x box shape x "
         "parameters from the documented ranges x ten reward modes (dyadic noise, all-negative, zero, constant, few-valued ties, "
         "alternating sign, large, objective+noise) x five split-fraction modes, 20..150 rounds, time labels t0+i, recommendation "
